@@ -249,6 +249,11 @@ def check_converters(repo, res):
         for br, classes in branches:
             nb += 1
             new = None
+            from .common import delegate_body
+
+            owner, body, bsrc = delegate_body(repo, fn, br.body, src)
+            br = ast.If(test=br.test, body=body, orelse=[], lineno=br.lineno, col_offset=0)
+            src_saved, src = src, bsrc
             for st in br.body:
                 if isinstance(st, ast.Assign) and isinstance(st.value, ast.Call) and isinstance(st.targets[0], ast.Name) and getattr(st.value.func, "id", "").startswith("empty_"):
                     new = st.targets[0].id
@@ -273,7 +278,8 @@ def check_converters(repo, res):
                     res.inst("A1-SHALLOW", f"{fname}[{'/'.join(classes)}]:{st.lineno} {new}.{attr} <- `{unparse(v, 40)}`", ok)
                     if not ok:
                         res.add(mk_finding(PROP, "A1-SHALLOW", fn, st, f"{fname}: `{unparse(v, 50)}` is assigned to the new network's {attr} without a copy; source and result would share it", role=f"{classes}:{attr}"))
-    res.floor("network-to-network converter branches", nb, 6)
+            src = src_saved
+    res.floor("network-to-network converter branches", nb, 4)
     return n
 
 
